@@ -15,6 +15,9 @@ use sync42::wait_list::WaitList;
 
 mod memtable;
 
+#[cfg(rescrv_blue_verif)]
+pub use memtable::MemTable as VerifMemTable;
+
 use crate::tree::SnapshotCursor;
 use crate::{
     LOG_FILE, LsmTree, LsmtkOptions, MANI_ROOT, SError, SST_FILE, TEMP_FILE, TEMP_ROOT, TRASH_ROOT,
@@ -220,7 +223,15 @@ impl KeyValueStore {
             let (imm, imm_log, imm_path, imm_trigger) = {
                 let mut state = self.state.lock().unwrap();
                 while state.imm_trigger < state.mem_seq_no {
+                    #[cfg(rescrv_blue_verif)]
+                    if crate::verif::single_step() {
+                        return Ok(());
+                    }
+                    #[cfg(rescrv_blue_verif)]
+                    crate::verif::park(crate::verif::NEEDS_FLUSH);
                     state = self.cnd_needs_memtable_flush.wait(state).unwrap();
+                    #[cfg(rescrv_blue_verif)]
+                    crate::verif::unpark(crate::verif::NEEDS_FLUSH);
                 }
                 let imm = Arc::clone(&state.mem);
                 let imm_log = Arc::clone(&state.mem_log);
@@ -243,6 +254,8 @@ impl KeyValueStore {
                 self.wait_list.notify_head();
                 (imm, imm_log, imm_path, imm_trigger)
             };
+            #[cfg(rescrv_blue_verif)]
+            crate::verif::yield_point("flush:memtable-swapped");
             self.poison::<(), SError>(Ok(()))?;
             if Arc::strong_count(&imm_log) != 1 {
                 return Err(logic_error(
@@ -275,15 +288,28 @@ impl KeyValueStore {
                     .with_debug_field("imm", imm_setsum.hexdigest());
                 return Err(err);
             }
+            #[cfg(rescrv_blue_verif)]
+            crate::verif::yield_point("flush:sst-built");
             self.tree._ingest(&sst_path, Some(imm_trigger))?;
+            #[cfg(rescrv_blue_verif)]
+            crate::verif::yield_point("flush:ingested");
             remove_file(sst_path)?;
             if let Some(file_name) = imm_path.file_name() {
                 rename(&imm_path, TRASH_ROOT(&self.root).join(file_name))?;
             }
+            #[cfg(rescrv_blue_verif)]
+            crate::verif::yield_point("flush:log-trashed");
             let mut state = self.state.lock().unwrap();
             state.imm = None;
             state.imm_trigger = imm_trigger;
             self.cnd_memtable_rolled_over.notify_all();
+            #[cfg(rescrv_blue_verif)]
+            {
+                crate::verif::FLUSHES_DONE.fetch_add(1, std::sync::atomic::Ordering::SeqCst);
+                if crate::verif::single_step() {
+                    return Ok(());
+                }
+            }
         }
     }
 
@@ -370,14 +396,20 @@ impl KeyValueStore {
                 seq_no,
             )
         };
+        #[cfg(rescrv_blue_verif)]
+        crate::verif::yield_point("write:sequenced");
         let mut log_batch = sst::log::WriteBatch::default();
         for entry in batch.entries.iter() {
             log_batch.insert(KeyValueRef::from(entry))?;
         }
         self.poison(log.append(log_batch))?;
+        #[cfg(rescrv_blue_verif)]
+        crate::verif::yield_point("write:logged");
         self.poison(memtable.write(&mut batch))?;
         drop(memtable);
         drop(log);
+        #[cfg(rescrv_blue_verif)]
+        crate::verif::yield_point("write:inserted");
         let mut state = self.state.lock().unwrap();
         while !wait_guard.is_head() {
             state = wait_guard.naked_wait(state);
@@ -438,5 +470,35 @@ impl KeyValueStore {
         let cursor = PruningCursor::new(cursor, timestamp)?;
         let cursor = BoundsCursor::new(cursor, start_bound, end_bound)?;
         Ok(SnapshotCursor::new(cursor, version))
+    }
+}
+
+#[cfg(rescrv_blue_verif)]
+impl KeyValueStore {
+    /// Ask for the active memtable to be flushed, exactly as a write that finds it full does.
+    /// Returns false (and does nothing) when the memtable is empty: the store itself only ever
+    /// rolls over a memtable that a write is going into.
+    pub fn verif_request_flush(&self) -> bool {
+        let state = self.state.lock().unwrap();
+        if state.mem.approximate_size() == 0 {
+            return false;
+        }
+        drop(self.rollover_memtable(state));
+        true
+    }
+
+    /// The tree beneath the store.
+    pub fn verif_tree(&self) -> &LsmTree {
+        &self.tree
+    }
+
+    /// (bytes in the active memtable, whether an immutable memtable exists, read timestamp).
+    pub fn verif_state(&self) -> (usize, bool, u64) {
+        let state = self.state.lock().unwrap();
+        (
+            state.mem.approximate_size(),
+            state.imm.is_some(),
+            state.read_seq_no,
+        )
     }
 }
